@@ -71,6 +71,11 @@ class Ctx:
         if k:
             self.known_seen[k["id"]] += 1
             return
+        try:  # triage aid only (flaky failures would otherwise leave no trace); never read back by a check
+            with open(os.path.join(WORK, "failures-seen.log"), "a") as fh:
+                fh.write("=== %s %s seed=%s shard=%s\n%s\n%s\n" % (self.prop, sig, self.seed, self.shard, json.dumps(case)[:2000], detail[:6000]))
+        except OSError:
+            pass
         raise Failure(sig, case, detail)
 
     def result(self):
